@@ -93,6 +93,26 @@ impl WarmUpCalculator {
     }
 }
 
+/// State access for verification tooling (`verif_hooks` feature only).
+#[cfg(feature = "verif_hooks")]
+impl WarmUpCalculator {
+    /// (stored_tokens, last_filled_time, warning_token, max_token)
+    pub fn verif_state(&self) -> (u64, u64, u64, u64) {
+        (
+            self.stored_tokens.load(Ordering::SeqCst),
+            self.last_filled_time.load(Ordering::SeqCst),
+            self.warning_token,
+            self.max_token,
+        )
+    }
+
+    pub fn verif_set_state(&self, stored_tokens: u64, last_filled_time: u64) {
+        self.stored_tokens.store(stored_tokens, Ordering::SeqCst);
+        self.last_filled_time
+            .store(last_filled_time, Ordering::SeqCst);
+    }
+}
+
 impl Calculator for WarmUpCalculator {
     fn get_owner(&self) -> &Weak<Controller> {
         &self.owner
